@@ -268,3 +268,25 @@ def header_split_cases():
             if sorted(map(repr, got)) != sorted(map(repr, want)):
                 return "vlevel %d: split gives %r, expected %r" % (vlevel, got, want)
     return True
+
+
+def delete_tag_cases():
+    """set / parse a tag, delete it, set it again with a value of another type: the line must equal one on which the tag was never present"""
+    for base in ("S\ta\t*", "S\ta\t8\t*", "L\ta\t+\tb\t+\t*"):
+        for first, fdt in ((1.5, "f"), (5, "i"), ("txt", "Z")):
+            for second, sdt in ((7, "i"), (2.5, "f"), ("zz", "Z")):
+                for how in ("set", "parsed"):
+                    fv = {"f": "1.5", "i": "5", "Z": "txt"}[fdt]
+                    l = gfapy.Line(base + ("\txx:%s:%s" % (fdt, fv) if how == "parsed" else ""))
+                    if how == "set":
+                        l.set("xx", first)
+                    r = l.delete("xx")
+                    if r is None or "xx" in l.tagnames or "xx" in l._datatype:
+                        return "%s: after delete: returned %r, tagnames %s, datatype kept %s" % (base, r, l.tagnames, "xx" in l._datatype)
+                    if l.delete("xx") is not None:
+                        return "deleting an absent tag returned a value"
+                    l.set("xx", second)
+                    ref = gfapy.Line(base); ref.set("xx", second)
+                    if str(l) != str(ref):
+                        return "%s: %s tag (%s) deleted then set to %r: %s instead of %s" % (base, how, fdt, second, str(l), str(ref))
+    return True
